@@ -36,6 +36,11 @@ PARAMS = ["amp", "xo", "yo", "sx", "sy", "theta"]
 
 
 MUTANTS = [
+    ("amplitude row carries the sign of the amplitude",
+     "AegeanTools/fitting.py",
+     "            dmds = model / amp\n",
+     "            dmds = elliptical_gaussian(x, y, np.sign(amp), xo, yo, sx, "
+     "sy, theta)\n", "C04-R1"),
     ("theta row per radian", "AegeanTools/fitting.py",
      "            dmdtheta *= np.pi / 180\n", "", "C04-R1"),
     ("sx row wrong power", "AegeanTools/fitting.py",
